@@ -9,12 +9,16 @@ PROP = "C01"
 KINDS = ("post", "pre", "assert")  # a firing NUNAVUT_ASSERT aborts the codec: part of the functional contract when asserts are generated
 
 
-def main(prop=PROP, direction=("ser",), kinds=KINDS, title="serializers"):
+def main(prop=PROP, direction=("ser",), kinds=KINDS, title="serializers", extra=None):
     args = parse_args(prop)
     run = report.Run(prop, "proof", f"./check {prop}", args.tier)
-    variants = [("any+asserts", {"enable_serialization_asserts": True}), ("any", {})]
+    # target_endianness=little selects the memmove fast paths of the templates: part of the every-change tier
+    variants = [("any+asserts", {"enable_serialization_asserts": True}), ("any", {}), ("little", {"target_endianness": "little"})]
+    if prop == "C04" or args.tier == "thorough":
+        # the documented per-field capacity override with user-reduced capacities (named in C04's quantifier)
+        variants.append(("override", {"enable_override_variable_array_capacity": True, "__override__": True}))
     if args.tier == "thorough":
-        variants += [("little+asserts", {"enable_serialization_asserts": True, "target_endianness": "little"}), ("little", {"target_endianness": "little"}), ("big", {"target_endianness": "big"})]
+        variants += [("little+asserts", {"enable_serialization_asserts": True, "target_endianness": "little"}), ("big", {"target_endianness": "big"})]
     n_all = 0
     for label, opts in variants:
         obs = PP.collect(run, opts, label, direction)
@@ -24,6 +28,8 @@ def main(prop=PROP, direction=("ser",), kinds=KINDS, title="serializers"):
         run.add_results(res)
         PP.report_failures(run, res, label)
         shutil.rmtree(PP._STATE.get("workdir", "/nonexistent"), ignore_errors=True)
+    if extra is not None:
+        extra(run)
     run.notes["obligations_generated_all_kinds"] = n_all
     run.notes["obligation_kinds_reported_here"] = list(kinds)
     run.trust("clang 14 typed AST of the rendered headers (-Wall -Wextra -Werror)", "z3 4.8.12 / 5.1.0", "E-C semantics (vk/ec.py)", "SPEC (vk/spec.py): reading of the Cyphal DSDL specification",
